@@ -869,6 +869,10 @@ func packCase(sp *spec) {
 		len(desc.URLs) != 0 || desc.Data != nil || desc.Platform != nil {
 		fail("descriptor-fields", "descriptor artifactType=%q annotations=%v, want %q %v", desc.ArtifactType, desc.Annotations, e.descAT, e.want.Ann)
 	}
+	// the marshalled document is canonical: object keys of every annotations map are sorted
+	if bad := unsortedAnnotations(stored); bad != "" {
+		fail("annotations-not-canonical", "stored manifest lists annotation keys out of order: %s", bad)
+	}
 	// every invented blob is present
 	for _, d := range e.invented {
 		if isManifestType(d.MediaType) {
@@ -918,6 +922,20 @@ func packCase(sp *spec) {
 		if err2 != nil || !reflect.DeepEqual(d2, desc) {
 			fail("not-deterministic", "second call on the same target: %v %v, first %v", d2, err2, desc)
 		}
+		// Go maps carry no order: the same annotations inserted in another order (and into maps of
+		// another capacity) must give the same bytes, hence the same descriptor
+		rsp := *sp
+		rsp.Ann = reinsert(sp.Ann)
+		rsp.ConfigAnn = reinsert(sp.ConfigAnn)
+		rsp.Layers = nil
+		for _, l := range sp.Layers {
+			l.Annotations = reinsert(l.Annotations)
+			rsp.Layers = append(rsp.Layers, l)
+		}
+		d4, err4 := callPack(&rsp, pusherOnly{&recorder{inner: memory.New(), failAt: -1}})
+		if err4 != nil || !reflect.DeepEqual(d4, desc) {
+			fail("annotation-order-dependent", "same call with annotations inserted in another order: %v %v, first %v", d4, err4, desc)
+		}
 		otherKind := "memory"
 		if sp.Target == "memory" && run.Evaluations%8 == 0 {
 			otherKind = "oci" // a disk-backed target now and then (temp directories are slow)
@@ -954,4 +972,65 @@ func allBacked(sp *spec) bool {
 		return false
 	}
 	return true
+}
+
+// reinsert rebuilds a map by inserting the keys in descending order into a map of another capacity.
+func reinsert(m map[string]string) map[string]string {
+	if m == nil {
+		return nil
+	}
+	keys := make([]string, 0, len(m))
+	for k := range m {
+		keys = append(keys, k)
+	}
+	sort.Sort(sort.Reverse(sort.StringSlice(keys)))
+	out := make(map[string]string, 4*len(m)+7)
+	for _, k := range keys {
+		out[k] = m[k]
+	}
+	return out
+}
+
+// unsortedAnnotations walks the raw JSON and reports an "annotations" object whose keys are not
+// in ascending order ("" when all are).
+func unsortedAnnotations(data []byte) string {
+	dec := json.NewDecoder(bytes.NewReader(data))
+	var walk func(inAnn bool) string
+	walk = func(inAnn bool) string {
+		tok, err := dec.Token()
+		if err != nil {
+			return ""
+		}
+		switch d := tok.(type) {
+		case json.Delim:
+			switch d {
+			case '{':
+				prev, first := "", true
+				for dec.More() {
+					kt, err := dec.Token()
+					if err != nil {
+						return ""
+					}
+					k := kt.(string)
+					if inAnn && !first && k <= prev {
+						return fmt.Sprintf("%q after %q", k, prev)
+					}
+					prev, first = k, false
+					if r := walk(k == "annotations"); r != "" {
+						return r
+					}
+				}
+				dec.Token()
+			case '[':
+				for dec.More() {
+					if r := walk(false); r != "" {
+						return r
+					}
+				}
+				dec.Token()
+			}
+		}
+		return ""
+	}
+	return walk(false)
 }
